@@ -235,3 +235,76 @@ def expression_facts(pm: dict, node: ast.AST) -> list[tuple[ast.AST, bool]]:
                     out.append((c, True))
         cur = par
     return out
+
+
+def unroll_literal_loops(fn: ast.AST, consts: dict, limit: int = 16) -> ast.AST:
+    """copy of a function in which every `for <targets> in <literal>:` — the iterable being a tuple/list display or a module-level
+    literal constant — is replaced by its iterations written out, the targets substituted by the constants (nested loops over
+    a substituted element unroll too).  A table-driven loop (`for name, help in _COMMANDS: add_parser(name, …)`) then reads
+    like the statements it stands for."""
+    import copy
+
+    def value_of(e):
+        if isinstance(e, ast.Name) and e.id in consts:
+            return consts[e.id]
+        try:
+            return ast.literal_eval(e)
+        except Exception:
+            return None
+
+    def to_ast(v, at):
+        node = ast.parse(repr(v), mode="eval").body
+        for x in ast.walk(node):
+            ast.copy_location(x, at)
+        return node
+
+    def bind(target, value, env) -> bool:
+        if isinstance(target, ast.Name):
+            env[target.id] = value
+            return True
+        if isinstance(target, (ast.Tuple, ast.List)) and isinstance(value, (tuple, list)) and len(value) == len(target.elts):
+            return all(bind(t, v, env) for t, v in zip(target.elts, value))
+        return False
+
+    class Sub(ast.NodeTransformer):
+        def __init__(self, env):
+            self.env = env
+
+        def visit_Name(self, n):
+            if isinstance(n.ctx, ast.Load) and n.id in self.env:
+                return to_ast(self.env[n.id], n)
+            return n
+
+    def do(seq):
+        out = []
+        for st in seq:
+            for fld in ("body", "orelse", "finalbody"):
+                sub = getattr(st, fld, None)
+                if isinstance(sub, list) and sub and isinstance(sub[0], ast.stmt):
+                    setattr(st, fld, do(sub))
+            for h in getattr(st, "handlers", []) or []:
+                h.body = do(h.body)
+            for c in getattr(st, "cases", []) or []:
+                c.body = do(c.body)
+            if isinstance(st, ast.For) and not st.orelse:
+                items = value_of(st.iter)
+                if isinstance(items, (tuple, list)) and 0 < len(items) <= limit and not any(
+                        isinstance(x, (ast.Break, ast.Continue)) for b in st.body for x in ast.walk(b)):
+                    unrolled, ok = [], True
+                    for it in items:
+                        env = {}
+                        if not bind(st.target, it, env):
+                            ok = False
+                            break
+                        body = [Sub(env).visit(copy.deepcopy(b)) for b in st.body]
+                        unrolled.extend(do(body))
+                    if ok:
+                        out.extend(unrolled)
+                        continue
+            out.append(st)
+        return out
+
+    new = copy.deepcopy(fn)
+    new.body = do(new.body)
+    ast.fix_missing_locations(new)
+    return new
